@@ -1,4 +1,6 @@
 """C03 - resource allocation is exclusive and two-way consistent at every step."""
+from hypothesis import strategies as st
+
 from .. import gen
 from .. import simcheck
 from ..core import Result
@@ -20,9 +22,37 @@ CFG = gen.Cfg(warm=4, onesided=4, facilities=True, max_workers=4, min_tasks=2, m
               work_pool=[0.0, 0.5, 1.0, 1.0, 2.0, 2.0, 3.0, 4.0])
 
 
+# "pinned": many facility tasks name the facilities (and workers) they may use, few facilities: several tasks
+# want the same one in the same step
+CFG_PIN = CFG.copy(p_fix=2, max_wps=2, max_facs_per_wp=2, max_comps=3, min_tasks=3, onesided=0)
+
+
+@st.composite
+def _pinned(draw, cfg):
+    spec = draw(gen.pairs_spec(cfg))
+    if spec["facs"]:
+        for ti, t in enumerate(spec["tasks"]):
+            if t["nf"] and draw(st.booleans()):
+                # the task insists on one facility that can really serve it; other tasks may get it first
+                fi = draw(st.integers(0, len(spec["facs"]) - 1))
+                f = spec["facs"][fi]
+                t["fixf"] = [fi]
+                f["skills"][str(ti)] = 1.0
+                f["solo"] = False
+                wp = spec["wps"][f["wp"]]
+                if ti not in wp["targets"]:
+                    wp["targets"] = sorted(wp["targets"] + [ti])
+                for w in spec["workers"]:
+                    if draw(st.booleans()):
+                        w["fsk"][str(fi)] = 1.0
+        gen.share_skills_by_name(spec)
+    return spec
+
+
 def strategy(tier):
     cfg = CFG if tier == "quick" else CFG.copy(max_tasks=12, max_workers=6)
-    return gen.model_spec(cfg)
+    pin = CFG_PIN if tier == "quick" else CFG_PIN.copy(max_tasks=12, max_workers=6)
+    return st.one_of(gen.model_spec(cfg), gen.model_spec(cfg), _pinned(pin))
 
 
 def budget(tier):
